@@ -289,6 +289,13 @@ func (cluH) Generate(property string, seed uint64, tier string) *Case {
 			// detector sees as concurrent
 			plan.Policy = "batch"
 			nops += 4
+			if g.IntN(5) == 0 {
+				// machines that refuse every create: the failure paths of the per-node
+				// goroutines of one deployment run side by side
+				for i := range cfg.Nodes {
+					cfg.Nodes[i].Beh.CreateErr = g.IntN(4) != 0
+				}
+			}
 		}
 		for i := 0; i < nops; i++ {
 			op := genCluOp(g, &cfg, property, i)
